@@ -349,6 +349,17 @@ def shard_paste(args):
         for sig, msg in fails:
             if "cut_wrong" in sig or "out_of_order" in sig or sig.startswith("C08:send_raises"):
                 acc.failure("C03:paste_loop_breaks_up_a_keypress", {"burst_bytes": len(scn["script"][0][1]), "first_units": [u.hex() for u in scn["units"][:6]]}, "%s: %s" % (sig, msg))
+    # bytes buffered inside the Input while its context is left and entered again (type-ahead, leftovers that are a sequence prefix):
+    # the stream must still come out without a byte lost (C08's lifecycle scenarios, default schedule)
+    life = [s_ for s_ in c08.family_lifecycle(tier == "thorough") if c08.usable(s_)]
+    for si in range(idx, len(life), 8):
+        scn = life[si]
+        obs, fails, meta = c08.run_scenario(scn, vk.Chooser(()))
+        acc.case(True, key=("life", si), sample=c08.show(scn))
+        acc.transitions += 1
+        for sig, msg in fails:
+            if "not_everything_delivered" in sig or "out_of_order" in sig or sig.startswith("C08:send_raises") or "lost_wakeup" in sig or "none_although" in sig:
+                acc.failure("C03:stream_not_lossless_through_input", c08.show(scn), "%s: %s" % (sig, msg))
     return acc.export()
 
 
